@@ -266,6 +266,11 @@ rv('N', r'^leb128::write::Leb128::signed \| cast i64->u8 \| val as u8', 'reinter
 rv('N', r'^leb128::write::Leb128::(signed|unsigned) \| cast usize->u8 \| len as u8', 'invariant', 'number of LEB128 bytes of a 64-bit value: at most 10')
 rv('N', r'^write::writer::Writer::write_eh_pointer_data \| cast u64->i64', 'reinterpret', REINT + 'signed pointer encodings (sdata2/4/8, sleb128) of an address value; write_sdata range-checks the narrower widths')
 rv('N', r'^write::writer::Writer::write_sdata \| cast i(8|16|32|64)->u(8|16|32|64)', 'reinterpret', REINT + 'the narrower signed value was produced by the cast-and-compare-back check two lines above')
+rv('N', r'^write::cfi::CommonInformationEntry::write \| cast u16->u8 \| encoding.version as u8', 'validator', 'the CIE version byte: the match that selects the layout accepts only versions 1, 3 and 4 (anything else is Error::UnsupportedVersion)')
+rv('N', r'^write::line::LineProgram::write \| cast i8->u8 \| self.line_encoding.line_base as u8', 'reinterpret', REINT + 'line_base is the signed byte of the header, written as its two\'s-complement bit pattern')
+rv('N', r'^write::(loc::LocationListTable|range::RangeListTable)::write_(loc|ranges) \| cast u64->i64 \| length as i64', 'reinterpret', REINT + 'length added to a symbol addend (i64) with wrapping semantics; Address::Constant uses wrapping_add on u64')
+rv('N', r'^write::op::Operation::write \| cast usize->i64', 'invariant', 'byte offsets inside one expression (bounded by the size of the Vec holding it, < 2^63); the i64 difference is range-checked by write_sdata(.., 2)')
+rv('N', r'^write::relocate::<impl write::writer::Writer for T>::write_offset(_at)? \| cast usize->i64 \| val as i64', 'reinterpret', REINT + 'section offset stored as the addend of the recorded relocation')
 kf('N', r'^write::cfi::convert::', ['C12', 'C01'],
    'write::cfi conversion narrows operands with plain `as i32` / `as u32` / `as u8` / `as i8` casts ("TODO: validate integer type conversions"): e.g. DW_CFA_def_cfa_offset 0x1_0000_0020 '
    'is converted to a CFA offset of 32 without any error (silent truncation)', 'findings/demo/tests/cfi_convert_truncation.rs')
